@@ -10,10 +10,39 @@ def parsePairs (j : Json) (k : String) : R (List (Nat × Nat)) :=
       | [o, d] => pure (o, d)
       | _ => throw "offset pair expected") j k
 
-/-- the constructor arguments of `SRRConfig` (exact values of the floats) -/
-def parseSrrCfg (j : Json) : R SrrConfig := do
-  pure (SrrConfig.make (← getRat j "spotsize") (← getRat j "speed") (← getRat j "scantime")
-    (← getRat j "warmup") (← parsePairs j "pairs"))
+/-- a configuration as it was made and changed: the constructor arguments of `SRRConfig` (exact values of the
+floats) and then the changes of that object (`ops`), folded through the model's setters.  Besides the state, the
+`(seconds, scantime)` pair of the last warm-up assignment is kept (the specification of the warm-up in samples). -/
+structure CfgHist where
+  cfg : SrrConfig
+  seconds : Rat
+  scantime : Rat
+
+def parseOp (j : Json) : R CfgOp := do
+  match (← getStr j "op") with
+  | "warmup" => pure (.warmup (← getRat j "seconds"))
+  | "offsets" => pure (.offsets (← parsePairs j "pairs"))
+  | "equal" => pure (.equalOffsets (← getNat j "width"))
+  | "params" => pure (.params (← getRat j "spotsize") (← getRat j "speed") (← getRat j "scantime"))
+  | "new" => pure (.replace (← getRat j "spotsize") (← getRat j "speed") (← getRat j "scantime") (← getRat j "warmup")
+                    (← parsePairs j "pairs"))
+  | o => throw s!"unknown config op {o}"
+
+def CfgHist.step (h : CfgHist) (op : CfgOp) : CfgHist :=
+  let c := h.cfg.apply op
+  match op with
+  | .warmup s => { cfg := c, seconds := s, scantime := h.cfg.scantime }
+  | .replace _ _ t w _ => { cfg := c, seconds := w, scantime := t }
+  | _ => { h with cfg := c }
+
+def parseSrrHist (j : Json) : R CfgHist := do
+  let scantime ← getRat j "scantime"
+  let seconds ← getRat j "warmup"
+  let c := SrrConfig.make (← getRat j "spotsize") (← getRat j "speed") scantime seconds (← parsePairs j "pairs")
+  let ops ← getList parseOp j "ops"
+  pure (ops.foldl CfgHist.step { cfg := c, seconds := seconds, scantime := scantime })
+
+def parseSrrCfg (j : Json) : R SrrConfig := do pure (← parseSrrHist j).cfg
 
 /-- a layer: `rows × cols` pixels, each a tuple of element tokens -/
 def parseLayer (j : Json) : R (Arr2 (List Int)) := do
@@ -36,17 +65,30 @@ def jArr2 {α} (f : α → Json) (a : Arr2 α) : Json :=
 def project (e : Nat) (l : Arr2 (List Int)) : Arr2 Rat :=
   { rows := l.rows, cols := l.cols, get := fun r c => (((l.get r c).getD e 0 : Int) : Rat) }
 
+/-- is the float magnification an integer `≥ 1` ("integer magnification", DESIGN 6a) -/
+def intMag (m : Rat) : Bool := decide (1 ≤ m) && decide (m = ((magInt m : Nat) : Rat))
+
 def jCfg (c : SrrConfig) : Json :=
+  let m := c.magnification
   jObj [("spotsize", jRat c.spotsize), ("speed", jRat c.speed), ("scantime", jRat c.scantime),
         ("warmup_samples", jInt c.warmup), ("warmup_seconds", jRat c.warmupSeconds),
         ("size", jNat c.size), ("offs", jList jNat c.offs),
-        ("subpixel_offsets", jList (fun (p : Nat × Nat) => jList jNat [p.1, p.2]) c.subpixelOffsets)]
+        ("subpixel_offsets", jList (fun (p : Nat × Nat) => jList jNat [p.1, p.2]) c.subpixelOffsets),
+        ("magnification", jRat m), ("magnification_exact", jRat c.magnificationExact),
+        ("mag", jNat (magInt m)), ("mag_axis", jNat (magAxis m)), ("integer_mag", jBool (intMag m)),
+        ("spp", jNat (subpixelsPerPixel c.size m))]
 
-/-- distance of the warm-up quotient from the nearest rounding tie -/
-def warmupTieMargin (seconds scantime : Rat) : Rat :=
+/-- the hypothesis of theorem `warmup_setter_determined`, decided on the inputs: the quotient is a float64 itself, or
+farther from every rounding tie than the float rounding error -/
+def warmupDetermined (seconds scantime : Rat) : Bool :=
   let x := seconds / scantime
-  let r := x - (x.floor : Rat)
-  if r < 1 / 2 then 1 / 2 - r else r - 1 / 2
+  let n : Rat := (warmupSpec seconds scantime : Int)
+  let e := (if x < 0 then -x else x) / 2 ^ 53
+  decide (fl x = x) || (decide (n - 1 / 2 < x - e) && decide (x + e < n + 1 / 2))
+
+def jWarm (h : CfgHist) : List (String × Json) :=
+  [("warmup_spec", jInt (warmupSpec h.seconds h.scantime)),
+   ("warmup_determined", jBool (warmupDetermined h.seconds h.scantime))]
 
 /-- the statement of theorem `offsets_setter_exact`, evaluated on the rows `[stored, size]` a configuration
 reports for the offsets `pairs` it was given: one row per offset, one common sub-pixel size `≥ 1`, every
@@ -63,91 +105,135 @@ def parseRows (j : Json) : R (List (Int × Int)) :=
       | [o, d] => pure (o, d)
       | _ => throw "row [stored, size] expected") j
 
+/-! ### structured arrays -/
+
+def parseFVal (j : Json) : R FVal := do
+  match fldOpt j "num", fldOpt j "table" with
+  | some v, _ => pure (.num (← asRat v))
+  | _, some t => pure (.table (← parseRows t))
+  | _, _ => throw "field value: num or table expected"
+
+def parseRec (j : Json) : R RecArr := do
+  let names ← getList asStr j "names"
+  let dim ← fld j "dim" >>= asOpt asNat
+  let recs ← getList (asList parseFVal) j "recs"
+  if recs.any (fun r => r.length ≠ names.length) then throw "record/dtype length mismatch"
+  pure { names := names, dim := dim, recs := recs }
+
+def jFVal : FVal → Json
+  | .num v => jObj [("num", jRat v)]
+  | .table rows => jObj [("table", jList (fun (p : Int × Int) => jList jInt [p.1, p.2]) rows)]
+
+def jRec (a : RecArr) : Json :=
+  jObj [("names", jList jStr a.names), ("dim", jOpt jNat a.dim), ("recs", jList (jList jFVal) a.recs)]
+
+def jErr : ArrErr → Json
+  | .valueError => jObj [("raises", jStr "ValueError")]
+  | .typeError => jObj [("raises", jStr "TypeError")]
+  | .indexError => jObj [("raises", jStr "IndexError")]
+  | .unmodelled => jObj [("unmodelled", jBool true)]
+
+def jFromRec (r : Except ArrErr SrrConfig) : Json :=
+  match r with
+  | .ok c => jCfg c
+  | .error e => jErr e
+
+/-- the array form of `c` as the model builds it, and `SRRConfig.from_array` of the arrays `given` (real arrays of
+any configuration class, encoded by the harness) as the model reads them -/
+def recReply (c : SrrConfig) (given : List RecArr) : List (String × Json) :=
+  [("array_model", jRec c.toRec),
+   ("roundtrip_model", jFromRec (SrrConfig.fromRec c.toRec)),
+   ("from_arrays", jList (fun a => jFromRec (SrrConfig.fromRec a)) given)]
+
 /-- one assignment of an offset list through the `subpixel_offsets` setter: the state the model's exact
 setter produces, its array round trip, and the specification evaluated on the reported rows -/
-def setterReply (spotsize speed scantime seconds m : Rat) (entry : Json) : R Json := do
+def setterReply (c0 : SrrConfig) (entry : Json) : R (SrrConfig × Json) := do
   let pairs ← parsePairs entry "pairs"
-  let c := SrrConfig.make spotsize speed scantime seconds pairs
+  let c := c0.setOffsets pairs
   let hyp := !pairs.isEmpty && pairs.all (fun p => decide (1 ≤ p.2))
   let exact ← (match (← fld entry "observed") with
     | .null => (pure none : R (Option Bool))
     | o => do pure (some (setterExact pairs (← parseRows o))))
-  pure (jObj [
-    ("config", jCfg c), ("spp", jNat (subpixelsPerPixel c.size m)), ("hyp", jBool hyp),
-    ("roundtrip_model", jCfg (SrrConfig.fromArray c.toArray)),
-    ("spp_roundtrip", jNat (subpixelsPerPixel (SrrConfig.fromArray c.toArray).size m)),
+  let given ← (match (← fld entry "array") with
+    | .null => (pure [] : R (List RecArr))
+    | a => do pure [← parseRec a])
+  pure (c, jObj ([
+    ("config", jCfg c), ("hyp", jBool hyp),
     ("spec_fractions", jList (fun (p : Nat × Nat) => jRat ((p.1 : Rat) / (p.2 : Rat))) pairs),
-    ("observed_exact", jOpt jBool exact)])
+    ("observed_exact", jOpt jBool exact)] ++ recReply c given))
 
 def handle (op : String) (req : Json) : R Json := do
   match op with
   | "c09.srr" =>
-    let c ← fld req "cfg" >>= parseSrrCfg
-    let m ← getRat req "mag"
+    -- everything is computed from the INPUTS of the constructor / setters: `cfg` (+ `ops`), the stack
+    let h ← fld req "cfg" >>= parseSrrHist
+    let c := h.cfg
+    let m := c.magnification
     let nel ← getNat req "nel"
     let layers ← getList parseLayer req "layers"
+    let given ← getList parseRec req "arrays"
     let z : List Int := List.replicate nel 0
     let mag := magInt m
     let p := subpixelsPerPixel c.size m
-    let seconds ← fld req "cfg" >>= (getRat · "warmup")
     let valid := validForData c m layers
     let model := match krisskross z c m layers with
       | some a => jArr3 a
       | none => jObj [("raises", jStr "ValueError")]
-    let (l0, l1) := match layers[0]?, layers[1]? with
-      | some d0, some d1 => (d0.rows, d1.rows)
-      | _, _ => (0, 0)
-    -- the specification is evaluated for the configuration as the implementation reports it
-    -- (public getters: warm-up, offsets, sub-pixels per pixel); `null` = use the model's own values
-    let obs ← fld req "observed"
-    let (wi, soffs, sp) ← (match obs with
-      | .null => (pure (c.warmup, c.offs, p) : R (Int × List Nat × Nat))
-      | o => do pure (← getInt o "w", ← getList asNat o "offs", ← getNat o "p"))
+    let (l0, s0, l1, s1) := match layers[0]?, layers[1]? with
+      | some d0, some d1 => (d0.rows, d0.cols, d1.rows, d1.cols)
+      | _, _ => (0, 0, 0, 0)
+    let crossed := decide (2 ≤ layers.length) &&
+      (List.range layers.length).all (fun i => match layers[i]? with
+        | some l => decide (l.rows = if i % 2 = 0 then l0 else l1) && decide (l.cols = if i % 2 = 0 then s0 else s1)
+        | none => false)
+    -- the specification: warm-up = the exact quotient rounded half-even, offsets and sub-pixels per pixel as the
+    -- setters' specification gives them (`offsets_setter_exact`), the float magnification's integer
+    let wi := warmupSpec h.seconds h.scantime
     let w := wi.toNat
-    let rr := reconRows l0 mag sp soffs
-    let rc := reconCols l1 mag sp soffs
+    let vspec := validSpec wi mag l0 s0 l1 s1
+    let rr := reconRows l0 mag p c.offs
+    let rc := reconCols l1 mag p c.offs
     let n := layers.length
     let idx : List (Nat × Nat × Nat) :=
       (List.range rr).flatMap (fun r => (List.range rc).flatMap (fun cc => (List.range n).map (fun i => (r, cc, i))))
-    let inrange := decide (0 ≤ wi) && !soffs.isEmpty && idx.all (fun (r, cc, i) => voxelInRange l0 l1 mag sp w soffs layers r cc i)
+    let inrange := decide (0 ≤ wi) && !c.offs.isEmpty && idx.all (fun (r, cc, i) => voxelInRange l0 l1 mag p w c.offs layers r cc i)
     let specArr : Arr3 (List Int) :=
-      { rows := rr, cols := rc, depth := n, get := fun r cc i => voxel z l0 l1 mag sp w soffs layers r cc i }
+      { rows := rr, cols := rc, depth := n, get := fun r cc i => voxel z l0 l1 mag p w c.offs layers r cc i }
     let flatModel := (List.range nel).map (fun e =>
-      match getFlat c m (layers.map (project e)) with
-      | some a => jArr2 jRat a
-      | none => jObj [("raises", jStr "ValueError")])
+      match srrGet 0 meanDepth c m (layers.map (project e)) none true with
+      | some (.img a) => jArr2 jRat a
+      | _ => jObj [("raises", jStr "ValueError")])
     let flatSpecs := (List.range nel).map (fun e =>
       jArr2 jRat ({ rows := rr, cols := rc,
-                    get := fun r cc => flatSpec l0 l1 mag sp w soffs (layers.map (project e)) r cc } : Arr2 Rat))
-    let layerReads := (List.range n).map (fun i =>
-      match getLayer layers i with
-      | some a => jArr2 (jList jInt) a
-      | none => Json.null)
+                    get := fun r cc => flatSpec l0 l1 mag p w c.offs (layers.map (project e)) r cc } : Arr2 Rat))
+    -- single-layer reads through `srrGet`, with and without `flat`
+    let noMean : Arr3 (List Int) → Arr2 (List Int) := fun a => { rows := a.rows, cols := a.cols, get := fun _ _ => [] }
+    let layerRead := fun (flat : Bool) => (List.range n).map (fun i =>
+      match srrGet z noMean c m layers (some i) flat with
+      | some (.img a) => jArr2 (jList jInt) a
+      | _ => Json.null)
     let layerSpecs := (List.range n).map (fun i =>
       match layers[i]? with
-      | some l =>
-        if i % 2 = 0 then jArr2 (jList jInt) l
-        else jArr2 (jList jInt) ({ rows := l.cols, cols := l.rows, get := fun r cc => l.get cc r } : Arr2 (List Int))
+      | some l => jArr2 (jList jInt) (layerSpec l i)
       | none => Json.null)
-    pure (jObj [
-      ("config", jCfg c), ("spp", jNat p), ("mag", jNat mag), ("mag_axis", jNat (magAxis m)),
-      ("warmup_margin", jRat (warmupTieMargin seconds c.scantime)),
-      ("valid", jOpt jBool valid),
+    pure (jObj ([
+      ("config", jCfg c), ("crossed", jBool crossed),
+      ("valid", jOpt jBool valid), ("valid_spec", jBool vspec),
       ("model", model), ("spec", jArr3 specArr), ("spec_inrange", jBool inrange),
       ("flat_model", Json.arr flatModel.toArray), ("flat_spec", Json.arr flatSpecs.toArray),
-      ("layer_model", Json.arr layerReads.toArray), ("layer_spec", Json.arr layerSpecs.toArray),
-      ("roundtrip_model", jCfg (SrrConfig.fromArray c.toArray)), ("roundtrip_spec", jCfg c)])
+      ("layer_model", Json.arr (layerRead false).toArray), ("layer_model_flat", Json.arr (layerRead true).toArray),
+      ("layer_spec", Json.arr layerSpecs.toArray)] ++ jWarm h ++ recReply c given))
   | "c09.config" =>
     -- the configuration alone (no stack): `sets` is a history of offset lists assigned one after the other
-    let cj ← fld req "cfg"
-    let spotsize ← getRat cj "spotsize"
-    let speed ← getRat cj "speed"
-    let scantime ← getRat cj "scantime"
-    let seconds ← getRat cj "warmup"
-    let m ← getRat req "mag"
-    let sets ← getList (setterReply spotsize speed scantime seconds m) req "sets"
-    pure (jObj [("sets", Json.arr sets.toArray), ("mag", jNat (magInt m)),
-                ("warmup_margin", jRat (warmupTieMargin seconds scantime))])
+    let h ← fld req "cfg" >>= parseSrrHist
+    let sets ← fld req "sets" >>= asArr
+    let mut c := h.cfg
+    let mut out : Array Json := #[]
+    for entry in sets do
+      let (c', j) ← setterReply c entry
+      c := c'
+      out := out.push j
+    pure (jObj ([("sets", Json.arr out), ("start", jCfg h.cfg)] ++ jWarm h))
   | _ => throw s!"unknown op {op}"
 
 end PewDriver.C09
